@@ -38,7 +38,8 @@ SPACE = ["km", "m", "dm", "cm", "mm", "dmm", "cmm", "µm", "nm", "pm", "fm"]
 TIME = ["h", "min", "s", "ds", "cs", "ms", "µs", "ns", "ps", "fs"]
 QTY = ["kmol", "mol", "dmol", "cmol", "mmol", "µmol", "nmol", "pmol", "fmol", "molecule"]
 DEFAULT_SYS = ("µm", "s", "molecule")
-BLANKS = " \t\n\r\x0b\x0c"
+BLANKS = " \t\n\r\x0b\x0c"                      # string.whitespace: what the label rules refuse
+EQ_BLANKS = BLANKS + "\x1c\x1f\x85\xa0\u2003\u3000"   # str.isspace(): what str.split() / strip() cut
 
 ALPHABETS = {
     "letters": "ABCDEFGHXYZabcxyz",
@@ -119,7 +120,7 @@ def rand_terms(rng, pool, maxterms=4):
 
 
 def blanks(rng, lo=0, hi=3):
-    return "".join(rng.choice(BLANKS) for _ in range(rng.randint(lo, hi)))
+    return "".join(rng.choice(EQ_BLANKS if rng.random() < 0.3 else BLANKS) for _ in range(rng.randint(lo, hi)))
 
 
 def render_side(rng, terms, tight):
